@@ -277,6 +277,105 @@ def window_check(ctx):
     return out
 
 
+# ---------------------------------------------------------------------------------------------------
+# publication of a commit: at EVERY source line of a committing writer (in particular of _commit_version /
+# _commit_version_unlocked, and the lines after the lock is released) let the NEXT writer run as far as it
+# can - a writer that is already waiting (it is woken by the committer's end-of-write), or a newcomer calling
+# writer() right there.  The next writer then commits; the final zone must be the serial application of all
+# committed transactions in admission order (a writer that copied a not-yet-published zone loses the
+# committer's update).  Deterministic: does not depend on the random stream.
+
+def publish_run(kind, variant, p):
+    """variant 0: the second writer is already waiting when the first one starts to move;
+    variant 1: the second writer calls writer() at line p of the first.
+    Returns (failure or None, line steps of the first writer, progs, schedule)"""
+    WA = [0, 0, [[0, 2, 1], [0, 0, 7]], 1]
+    WB = [0, 0, [[0, 3, 2]], 1]
+    WC = [0, 0, [[0, 4, 3], [1, 2]], 1]
+    progs = [WA, WB, WC]
+    lr = LineRun(progs, kind)
+    r = lr.r
+    ws = r.sched.workers
+    sched = []
+    fail = None
+
+    def step(tid):
+        nonlocal fail
+        sched.append(tid)
+        r.step(tid)
+        fail = lr.check_state(len(sched) - 1)
+
+    def run_free(tid, budget=5000):
+        """as far as the thread can go on its own"""
+        while fail is None and budget and not ws[tid].done and r.sched.enabled(ws[tid]):
+            budget -= 1
+            step(tid)
+
+    def run_done(tid, budget=5000):
+        while fail is None and budget and not ws[tid].done:
+            budget -= 1
+            if r.sched.enabled(ws[tid]):
+                step(tid)
+                continue
+            owner = r.sched.lock.owner
+            others = [w.tid for w in ws if not w.done and r.sched.enabled(w)]
+            if not others:
+                return {"what": "deadlock: unfinished threads and no step enabled", "blocked": tid}
+            step(owner if owner in others else others[0])
+        return None
+
+    k = 0
+    try:
+        if variant == 0:
+            # first writer admitted (its writer() has returned), second one queued behind it
+            while fail is None and getattr(ws[0], "phase", None) != "body" and not ws[0].done:
+                step(0)
+            run_free(1)
+        while fail is None and k < p and not ws[0].done and r.sched.enabled(ws[0]):
+            step(0)
+            k += 1
+        run_free(1)                      # the next writer moves here, as far as it can
+        for tid in (0, 1, 2):
+            if fail is None:
+                fail = run_done(tid) or fail
+        if fail is None and r.all_done():
+            fail = lr.final_check()
+    finally:
+        r.close()
+    if fail is not None:
+        fail["step"] = len(sched) - 1
+    return fail, k, progs, sched
+
+
+def publish_check(ctx):
+    F = []
+    runs = 0
+    for kind in (0, 1):
+        for variant in (0, 1):
+            _, total, _, _ = publish_run(kind, variant, 10 ** 6)
+            for p in range(total + 1):
+                fail, _, progs, sched = publish_run(kind, variant, p)
+                runs += 1
+                if fail is not None:
+                    F.append({
+                        "kind": "C12:lines:" + fail["what"], "sig": "publish:" + fail["what"],
+                        "what": fail["what"] + " (the next writer ran at source line %d of a committing writer)" % p,
+                        "how": ["the next writer was already waiting", "the next writer called writer() there"][variant],
+                        "detail": {k: v for k, v in fail.items() if k != "what"},
+                        "case": [3, kind, progs, sched],
+                    })
+                    break
+    ctx.notes["extra_evaluations"] = ctx.notes.get("extra_evaluations", 0) + runs
+    ctx.notes["extra_nontrivial"] = ctx.notes.get("extra_nontrivial", 0) + runs
+    ctx.notes["commit_publication_runs"] = runs
+    seen, out = set(), []
+    for f in F:
+        if f["sig"] not in seen:
+            seen.add(f["sig"])
+            out.append(f)
+    return out
+
+
 W1 = [0, 0, [[0, 2, 1]], 1]
 W2 = [0, 0, [[0, 3, 2], [1, 2]], 1]
 WR = [0, 0, [[0, 2, 7]], 3]
@@ -289,6 +388,7 @@ def check(ctx):
     evals = 0
     lines = 0
     F += window_check(ctx)
+    F += publish_check(ctx)
 
     def report(progs, kind, sched, fail, how):
         F.append({
